@@ -178,7 +178,8 @@ func genComment(t *rapid.T, block bool) string {
 	for i := 0; i < n; i++ {
 		s := commentChars[rapid.IntRange(0, len(commentChars)-1).Draw(t, "commentChar")]
 		if block && rapid.IntRange(0, 4).Draw(t, "commentBreak") == 0 {
-			s = "\n"
+			// line ends of every convention: only the line feed counts as a line break
+			s = rapid.SampledFrom([]string{"\n", "\n", "\r\n", "\r"}).Draw(t, "commentBreakKind")
 		}
 		b.WriteString(s)
 	}
